@@ -564,7 +564,25 @@ func c15StmtEdit(c *core.Ctx, src []byte, ver string, r *core.Rand) {
 	}
 	// prefer a statement that follows inline HTML
 	s := cand[r.Intn(len(cand))]
-	for _, x := range cand {
+	for pass := 0; pass < 2; pass++ {
+		found := false
+		for _, x := range cand {
+			if pass == 0 && obs.Kind(x.parent) == "Root" {
+				continue // inline HTML nested in a block first
+			}
+			if x.index > 0 && r.Chance(2, 3) {
+				list := reflect.ValueOf(x.parent).Elem().FieldByName("Stmts")
+				if prev, ok := list.Index(x.index - 1).Interface().(ast.Vertex); ok && obs.Kind(prev) == "StmtInlineHtml" {
+					s, found = x, true
+					break
+				}
+			}
+		}
+		if found {
+			break
+		}
+	}
+	for _, x := range cand[:0] {
 		if x.index > 0 && r.Chance(1, 2) {
 			list := reflect.ValueOf(x.parent).Elem().FieldByName("Stmts")
 			if prev, ok := list.Index(x.index - 1).Interface().(ast.Vertex); ok && obs.Kind(prev) == "StmtInlineHtml" {
@@ -646,7 +664,7 @@ func init() {
 			cor := gen.Corpus()
 			var src []byte
 			ver := r.Pick("5.6", "7.4", "7.0", "5.3")
-			if r.Chance(2, 3) {
+			if r.Chance(2, 3) && idx%4 != 2 || r.Chance(1, 4) {
 				src = []byte(cor[r.Intn(len(cor))].Src)
 			} else {
 				pc := genParseCase(c.P.Seed, "C15gen", idx, 20)
